@@ -6,7 +6,8 @@ Space  : every unit name x every SI prefix (bare and inside `2 u`, `u^2`,
          juxtaposition, with optional powers; every single-token deletion,
          insertion and substitution (over a 13-token edit alphabet) of every
          <= 2-factor expression over the reduced alphabet; every ordered pair of
-         unit names for conversion.
+         unit names for conversion; pairs of texts that differ only by white
+         space, evaluated back to back.
 Oracle : models/unitsref.py (own table, own parser, Fraction exponents).
 """
 import itertools
@@ -316,8 +317,31 @@ def run_conversions(R):
         R.sample(dict(convert='3.25 %s -> %s' % (a, names[3])), limit=2)
 
 
+def run_spacing(R):
+    """White space is an operator (juxtaposition) and a token separator: texts
+    that differ only by spaces are different expressions.  Each collision pair
+    is evaluated back to back in this process, half of them glued-first, half
+    spaced-first."""
+    pairs = []
+    for p in ('m', 'h', 'P', 'u', 'k', 'c', 'da', 'M'):
+        for u in ('s', 'K', 'mol', 'g', 'J', 'm', 'in', 'L'):
+            pairs.append((p + u, p + ' ' + u))
+    pairs += [('25 m', '2 5 m'), ('10 kJ', '1 0 kJ'), ('mmol', 'm mol'), ('mmol', 'mm ol'),
+              ('kcal', 'k cal'), ('min', 'm in'), ('ft', 'f t'), ('Pa', 'P a'),
+              ('2.5 m', '2 .5 m'), ('m^-1', 'm^ -1'), ('m^2 s', 'm^2s'), ('kg m', 'kgm')]
+    for n, (glued, spaced) in enumerate(pairs):
+        order = (glued, spaced) if n % 2 == 0 else (spaced, glued)
+        for text in order:
+            record(R, 'spacing', text)
+        # and once more, the other way round, with the roles swapped by a
+        # harmless prefix that keeps the pair distinct from the first visit
+        for text in reversed(order):
+            record(R, 'spacing', '2 ' + text)
+    R.sample(dict(spacing_pair=list(pairs[0])), limit=1)
+
+
 def shards(tier, seed):
-    out = [('names',), ('conv',)]
+    out = [('names',), ('conv',), ('spacing',)]
     for i in range(32):
         out.append(('pairs', i, 32))
     for i in range(24):
@@ -334,6 +358,8 @@ def run_shard(shard, tier):
         run_names(R)
     elif k == 'conv':
         run_conversions(R)
+    elif k == 'spacing':
+        run_spacing(R)
     elif k == 'pairs':
         run_pairs_full(R, shard[1], shard[2])
     elif k == 'triples':
